@@ -1133,8 +1133,11 @@ func (c *Conn) readHandshake(transcript transcriptHash) (interface{}, error) {
 			// 消息被分片，存到 pendingFragments 中
 			msgSeq := uint16(data[4])<<8 | uint16(data[5])
 			fb, exists := c.pendingFragments[msgSeq]
-			if !exists {
+			// 同一 message_seq 下残留的缓冲区若属于另一条消息（类型或总长度不同），
+			// 不得与新消息的分片混用，否则新消息永远无法收齐
+			if !exists || fb.msgType != data[0] || int(fb.totalLen) != bodyLen {
 				fb = newFragmentBuffer(uint24(bodyLen))
+				fb.msgType = data[0]
 				c.pendingFragments[msgSeq] = fb
 			}
 			fb.addFragment(uint24(fragOff), uint24(fragLen), data[dtlcpHeaderLen:])
